@@ -17,8 +17,10 @@ one() {
   pkg=$(grep -m1 '^package ' $d/demo_test.go | awk '{print $2}')
   case $pkg in sm2) dir=sm2;; internal) dir=sm2/internal;; fiat) dir=sm2/internal/fiat;; sm3) dir=sm3;; sm4) dir=sm4;; utils) dir=utils;; *) dir=$pkg;; esac
   tests=$(grep -oE '^func (Test[A-Za-z0-9_]+)' $d/demo_test.go | awk '{print $2}' | paste -sd'|')
+  # arm64 seeds port the logic and keep a test of the changed copy that fails on every tree: confirm_tests.txt names the tests that look at the tree
+  [ -f $d/confirm_tests.txt ] && tests=$(paste -sd'|' $d/confirm_tests.txt)
   git apply $d/patch.diff || { echo "$name: patch does not apply" > $d/confirm.txt; cd /; git -C /repo worktree remove --force $wt; return; }
-  b=$(go build ./... >/dev/null 2>&1 && echo ok || echo FAIL)
+  b=$(go build ./... >/dev/null 2>&1 && GOARCH=arm64 go build ./... >/dev/null 2>&1 && echo ok || echo FAIL)
   s=$(go test -vet=off -count=1 ./... >/tmp/seedconf/$name.suite 2>&1 && echo ok || echo FAIL)
   cp $d/demo_test.go $dir/zz_seed_demo_test.go
   go test -vet=off -count=1 -run "^($tests)\$" ./$dir > /tmp/seedconf/$name.with 2>&1; w=$?
